@@ -180,7 +180,7 @@ var fanMu sync.Mutex
 // fanStepTimeout: a goroutine released by the scheduler parks again within microseconds; the first time one does
 // not, we wait long enough to rule out machine load, afterwards (a hang has already been reported by this process)
 // a short wait suffices.
-var fanStepTimeout = 4 * time.Second
+var fanStepTimeout = 20 * time.Second
 
 func fanSawHang() { fanStepTimeout = 150 * time.Millisecond }
 
@@ -837,7 +837,7 @@ func init() {
 			return map[string]any{"res": a.Res, "trace": r.Trace}
 		},
 		Judge:   judgeFanout,
-		Timeout: 30 * time.Second,
+		Timeout: 120 * time.Second,
 	})
 }
 
